@@ -429,6 +429,23 @@ async fn step(w: &mut World, gates: &mut mpsc::UnboundedReceiver<GateEvent>, t: 
                 None => { res = json!("NoSuchTask"); extra = json!({"t": s["t"], "i": 0}); }
             }
         }
+        "FailTask" => {
+            // the write body meets a disk that refuses the file: the storage directory is out of reach while the
+            // body runs (nothing on disk is altered), so fs::write fails and the store is told to forget the record
+            match find_task(w, &s["t"]).filter(|pos| w.parked[*pos].id.kind == "W") {
+                Some(pos) => {
+                    extra = json!({"t": {"kind": w.parked[pos].id.kind, "k": w.parked[pos].id.k, "v": w.parked[pos].id.v}, "i": pos + 1});
+                    let k = w.parked[pos].id.k;
+                    let dir = w.file_of(k).parent().expect("storage dir").to_path_buf();
+                    let off = dir.with_extension("off");
+                    std::fs::rename(&dir, &off).expect("move storage dir away");
+                    let fin = w.release(pos, gates).await;
+                    std::fs::rename(&off, &dir).expect("move storage dir back");
+                    if !fin { res = json!("NotFinished"); }
+                }
+                None => { res = json!("NoSuchTask"); extra = json!({"t": s["t"], "i": 0}); }
+            }
+        }
         "HandleNote" => {
             let n = &s["n"];
             let (kind, k) = (n["kind"].as_str().unwrap_or(""), uz(&n["k"]));
@@ -632,7 +649,9 @@ fn random_step(w: &World, rng: &mut StdRng, nv: usize) -> Value {
                 if w.parked.is_empty() { continue; }
                 // bodies of one file run in spawn order: pick a file, take its earliest body
                 let p = w.parked.choose(rng).expect("parked");
-                return json!({"ev":"RunTask","t":{"kind":p.id.kind,"k":p.id.k,"v":p.id.v}});
+                // now and then the disk refuses a write
+                let ev = if p.id.kind == "W" && rng.gen_range(0..12) == 0 { "FailTask" } else { "RunTask" };
+                return json!({"ev":ev,"t":{"kind":p.id.kind,"k":p.id.k,"v":p.id.v}});
             }
             65..=84 => {
                 if w.notes.is_empty() { continue; }
@@ -650,12 +669,12 @@ fn random_step(w: &World, rng: &mut StdRng, nv: usize) -> Value {
 
 /// In spawn order per file: the earliest parked body of the chosen body's file.
 fn earliest_same_file(w: &World, s: &Value) -> Value {
-    if s["ev"] != "RunTask" { return s.clone(); }
+    if s["ev"] != "RunTask" && s["ev"] != "FailTask" { return s.clone(); }
     let kind = s["t"]["kind"].as_str().unwrap_or("");
     let k = uz(&s["t"]["k"]);
     let file_is_metrics = kind == "F";
     let p = w.parked.iter().find(|p| if file_is_metrics { p.id.kind == "F" } else { p.id.kind != "F" && p.id.k == k }).expect("parked");
-    json!({"ev":"RunTask","t":{"kind":p.id.kind,"k":p.id.k,"v":p.id.v}})
+    json!({"ev": if s["ev"] == "FailTask" && p.id.kind == "W" { "FailTask" } else { "RunTask" },"t":{"kind":p.id.kind,"k":p.id.k,"v":p.id.v}})
 }
 
 async fn run() {
